@@ -1,6 +1,12 @@
 package gowarc
 
-import "bufio"
+import (
+	"bufio"
+	"bytes"
+	"io"
+
+	"github.com/nlnwa/gowarc/v2/internal/diskbuffer"
+)
 
 // White-box access for the verification harness (injected at build time with -overlay as
 // /repo/zz_verif_export.go; never part of the repository).
@@ -49,4 +55,40 @@ func VerifErrClass(err error) string {
 		return "mrk"
 	}
 	return "other"
+}
+
+// VerifNewBlock constructs a block the way parseBlock does: kind "g" generic, "h" http (request or
+// response, decided by the content). The source is seekable (a spill buffer, as in the builder) or a
+// one-shot stream (as in the parser).
+func VerifNewBlock(kind string, content []byte, cached bool, alg string, enc int, maxMem int64, tmp string) (Block, error) {
+	opts := newOptions(WithDefaultDigestAlgorithm(alg), WithDefaultDigestEncoding(digestEncoding(enc)),
+		WithBufferMaxMemBytes(maxMem), WithBufferTmpDir(tmp), WithBlockErrorPolicy(ErrIgnore))
+	var r io.Reader
+	if cached {
+		b := diskbuffer.New(opts.bufferOptions...)
+		if _, err := b.Write(content); err != nil {
+			return nil, err
+		}
+		r = b
+	} else {
+		r = struct{ io.Reader }{bytes.NewReader(content)}
+	}
+	bd, err := newDigest(alg, digestEncoding(enc))
+	if err != nil {
+		return nil, err
+	}
+	pd, _ := newDigest(alg, digestEncoding(enc))
+	switch kind {
+	case "g":
+		return newGenericBlock(opts, r, bd), nil
+	case "h":
+		wf := &WarcFields{}
+		wf.Set(ContentLength, "0")
+		return newHttpBlock(opts, wf, r, bd, pd, &Validation{})
+	case "w":
+		return newWarcFieldsBlock(opts, &WarcFields{}, r, bd, &Validation{})
+	case "v":
+		return parseRevisitBlock(opts, r, bd, "")
+	}
+	return nil, nil
 }
